@@ -5,4 +5,5 @@ INVARIANT ExtraExact
 INVARIANT AliasWins
 INVARIANT SiblingAliasOwn
 INVARIANT InitFalseNeverKey
+INVARIANT DiscrKeyAccepted
 INVARIANT EmitInv
